@@ -18,7 +18,7 @@ static int conf_cb_tramp(KSI_CTX *, KSI_Config *c) {
 
 static const int64_t EPOCHS_S[] = {1600000000LL, 1136073600LL + 86400, 1700000000LL, 2147483000LL, 4294967000LL, 1500100000LL};
 
-static ConfVals read_config(KSI_Config *c) {
+ConfVals read_config(KSI_Config *c) {
 	ConfVals cv;
 	KSI_Integer *v = nullptr;
 	if (KSI_Config_getMaxLevel(c, &v) == KSI_OK && v) cv.max_level = KSI_Integer_getUInt64(v);
@@ -35,7 +35,7 @@ static ConfVals read_config(KSI_Config *c) {
 	return cv;
 }
 
-static bool conf_eq(const ConfVals &a, const ConfVals &b) {
+bool conf_eq(const ConfVals &a, const ConfVals &b) {
 	return a.max_level == b.max_level && a.aggr_period == b.aggr_period && a.max_requests == b.max_requests &&
 	       a.cal_first == b.cal_first && a.cal_last == b.cal_last && a.has_alg == b.has_alg && (!a.has_alg || a.aggr_alg == b.aggr_alg);
 }
@@ -76,7 +76,7 @@ void AsyncSim::setup() {
 	int neps = ha ? (int)std::min<int64_t>(3, std::max<int64_t>(1, plan.c("eps", 2))) : 1;
 	world.next_round = (uint64_t)(epoch / 1000) - 200000;
 	// a few rounds so that the extender has something to extend
-	for (int i = 0; i < 4; i++) {
+	for (int i = 0; i < (ha ? 40 : 4); i++) {
 		ReplyMeta m;
 		world.make_signature(imprint(1, "pre" + std::to_string(i)), 0, 100 + i, true, m);
 		known_times.push_back(m.agg_time);
@@ -321,7 +321,7 @@ void AsyncSim::op_add(const run::Op &op) {
 	} else {
 		KSI_ExtendReq *rq = nullptr;
 		KSI_ExtendReq_new(ctx, &rq);
-		rec->agg_time = known_times[(size_t)op.arg(0) % known_times.size()] + hash_counter++ % 2 * 0;
+		rec->agg_time = ha ? known_times[hash_counter++ % known_times.size()] : known_times[(size_t)op.arg(0) % known_times.size()];
 		KSI_Integer *t = nullptr;
 		KSI_Integer_new(ctx, rec->agg_time, &t);
 		KSI_ExtendReq_setAggregationTime(rq, t);
@@ -336,6 +336,7 @@ void AsyncSim::op_add(const run::Op &op) {
 		if (res != KSI_OK) { KSI_ExtendReq_free(rq); K.inconclusive = true; K.inconclusive_why = "handle_new failed"; return; }
 	}
 	rec->h = h;
+	if (ha) ha_before_add(*rec);
 	size_t before = outstanding();
 	struct peek_client pc; memset(&pc, 0, sizeof pc);
 	bool havepc = !ha && peek_client(svc, &pc);
@@ -369,6 +370,7 @@ void AsyncSim::op_readd(const run::Op &op) {
 	for (auto &r : recs) if (r->held && r->hold_state == KSI_ASYNC_STATE_ERROR) cand.push_back(r.get());
 	if (cand.empty()) return;
 	HRec &r = *cand[(size_t)op.arg(0) % cand.size()];
+	if (ha) ha_before_add(r);
 	size_t before = outstanding();
 	struct peek_client pc; memset(&pc, 0, sizeof pc);
 	bool havepc = !ha && peek_client(svc, &pc);
@@ -419,6 +421,7 @@ void AsyncSim::op_run() {
 		if (peek_handle_state(r->h) == KSI_ASYNC_STATE_RESPONSE_RECEIVED && !r->att.back().resp_run) r->att.back().resp_run = run_calls.size();
 		if (peek_handle_state(r->h) == KSI_ASYNC_STATE_ERROR) { r->att.back().failed_run = run_calls.size(); r->att.back().failed_ms = K.now_ms; KSI_AsyncHandle_getError(r->h, &r->att.back().failed_err); }
 	}
+	last_run_gave_handle = h != nullptr;
 	if (h) { if (ha) ha_on_returned(h, waiting); else on_returned(h, waiting); }
 	else if (!ha) {
 		struct peek_client pc;
@@ -505,6 +508,10 @@ void AsyncSim::op_reply(const run::Op &op) {
 	if (plan.c("adv", 0) == 0 || e.honest_only) behav = B_HONEST;
 	if (e.cfg.pdu_ver == 1 && (behav == B_CONF_ONLY || behav == B_WITH_CONF)) behav = B_HONEST;
 	if (!rq.info.has_id) behav = B_ERROR_PDU;
+	if (ha && (behav == B_CONF_ONLY || behav == B_WITH_CONF)) {
+		// C15 compares the consolidated configuration with a fold over one configuration per endpoint (DESIGN.md 6, C15)
+		if (e.pushed_conf) behav = B_HONEST; else e.pushed_conf = true;
+	}
 	if (behav != B_HONEST) note_fault("adversarial_reply");
 	send_reply(e, rq, behav, (uint64_t)op.arg(2));
 	e.answered.push_back(rq);
@@ -573,6 +580,7 @@ void AsyncSim::op_pushconf(const run::Op &op) {
 		if (op.arg(3) % 6 == 4) cv.cal_last = 1500000000 + var % 1000;
 	}
 	if (!cv.any()) return;
+	if (ha && e.pushed_conf) return;
 	Conn *c = e.http ? nullptr : N.live_conn_of(e.net_ep);
 	int xfer = -1;
 	if (e.http) { for (auto &xp : C.xfers) if (xp->ep == e.net_ep && xp->st == Xfer::SENT && !xp->responded) { xfer = xp->idx; break; } if (xfer < 0) return; }
@@ -584,6 +592,7 @@ void AsyncSim::op_pushconf(const run::Op &op) {
 	ce.cv = cv; ce.via_callback = false; ce.ep = (int)(&e - &eps[0]);
 	conf_events.push_back(ce);
 	K.count("probe.conf_push");
+	e.pushed_conf = true;
 	if (e.http) {
 		// over HTTP a push can only travel in a response body; it answers (and thereby consumes) that transfer's request
 		for (size_t j = 0; j < e.pending.size(); j++) if (e.pending[j].xfer == xfer) { e.pending.erase(e.pending.begin() + j); break; }
@@ -734,6 +743,24 @@ static int svc_status_to_err(bool ext, uint64_t st) {
 	}
 }
 
+// the signature's chains are those of the reply, except that the SDK adds the requested level to the first level correction
+bool sig_matches_reply(const ref::SigView &v, const ref::RespInfo &info, uint64_t level) {
+	std::vector<AggChain> theirs;
+	for (auto &enc : info.chain_encs) { Tlv t; size_t u; AggChain c; if (!Tlv::parse1(enc, 0, t, u) || !parse_agg_chain(t, c)) return false; theirs.push_back(c); }
+	if (theirs.size() != v.agg.size()) return false;
+	std::stable_sort(theirs.begin(), theirs.end(), [](const AggChain &x, const AggChain &y) { return x.index.size() > y.index.size(); });
+	for (size_t ci = 0; ci < theirs.size(); ci++) {
+		const AggChain &x = v.agg[ci], &y = theirs[ci];
+		if (x.time != y.time || x.index != y.index || x.input != y.input || x.alg != y.alg || x.links.size() != y.links.size()) return false;
+		for (size_t li = 0; li < x.links.size(); li++) {
+			const Link &a1 = x.links[li], &b1 = y.links[li];
+			uint64_t want = b1.lc + ((ci == 0 && li == 0) ? level : 0);
+			if (a1.left != b1.left || a1.kind != b1.kind || a1.sib != b1.sib || a1.lc != want) return false;
+		}
+	}
+	return !v.has_cal || v.cal_raw == info.cal_enc;
+}
+
 void AsyncSim::on_returned(KSI_AsyncHandle *h, size_t waiting) {
 	int state = 0, err = 0; long ext = 0;
 	KSI_AsyncHandle_getState(h, &state);
@@ -827,23 +854,7 @@ void AsyncSim::check_response(HRec &r, Attempt &a) {
 			bool ok = parsed && f.consistent && f.input_hash == r.hash && f.first_lc >= r.level;
 			if (!ok) K.fail("C07", "signature-accepted-but-invalid", f.why.empty() ? "hash-or-level" : f.why, "handle #%d: getSignature succeeded but the signature is not valid for the requested hash/level (%s)", r.idx, f.why.c_str());
 			// content identity: its chains are those of one eligible reply
-			auto matches = [&](const Frame *g) {
-				// same chains as that reply, except that the SDK adds the requested level to the first level correction
-				std::vector<AggChain> theirs;
-				for (auto &enc : g->info.chain_encs) { Tlv t; size_t u; AggChain c; if (!Tlv::parse1(enc, 0, t, u) || !parse_agg_chain(t, c)) return false; theirs.push_back(c); }
-				if (theirs.size() != v.agg.size()) return false;
-				std::stable_sort(theirs.begin(), theirs.end(), [](const AggChain &x, const AggChain &y) { return x.index.size() > y.index.size(); });
-				for (size_t ci = 0; ci < theirs.size(); ci++) {
-					const AggChain &x = v.agg[ci], &y = theirs[ci];
-					if (x.time != y.time || x.index != y.index || x.input != y.input || x.alg != y.alg || x.links.size() != y.links.size()) return false;
-					for (size_t li = 0; li < x.links.size(); li++) {
-						const Link &a1 = x.links[li], &b1 = y.links[li];
-						uint64_t want = b1.lc + ((ci == 0 && li == 0) ? r.level : 0);
-						if (a1.left != b1.left || a1.kind != b1.kind || a1.sib != b1.sib || a1.lc != want) return false;
-					}
-				}
-				return !v.has_cal || v.cal_raw == g->info.cal_enc;
-			};
+			auto matches = [&](const Frame *g) { return sig_matches_reply(v, g->info, r.level); };
 			bool same = false;
 			for (auto *g : good) if (matches(g)) same = true;
 			if (parsed && !same) for (auto *g : prem_all) if (matches(g)) {
@@ -1100,13 +1111,13 @@ void AsyncSim::quiesce() {
 			if (sil) continue;
 			if (s.first >= 0) N.deliver(*N.conns[s.first], 0); else C.deliver(*C.xfers[s.second], 0);
 		}
-		for (size_t k = 0; k < 2 * cache + 8; k++) {
+		for (size_t k = 0; k < (2 * cache + 8) * (ha ? eps.size() + 1 : 1); k++) {
 			size_t before_ret = 0; for (auto &r : recs) if (r->outstanding) before_ret++;
 			uint64_t sq = K.seq;
 			op_run();
 			size_t after_ret = 0; for (auto &r : recs) if (r->outstanding) after_ret++;
 			(void)sq;
-			if (after_ret == before_ret && k > 0) break;
+			if (after_ret == before_ret && k > 0 && !last_run_gave_handle) break;
 			if (K.failed()) return;
 		}
 	};
@@ -1145,7 +1156,7 @@ void AsyncSim::quiesce() {
 		if (!backward_jump) K.fail("C13", "request-lost", "fresh-request", "a request added after faults stopped was not completed within %d drain rounds", B2);
 	} else if (fresh.hold_state != KSI_ASYNC_STATE_RESPONSE_RECEIVED && !backward_jump) {
 		bool all_silent = true;
-		for (auto &e : eps) if (!e.silent) all_silent = false;
+		for (size_t ei = 0; ei < eps.size(); ei++) if (!eps[ei].silent && !(ha && ei < fresh.sub_full.size() && fresh.sub_full[ei])) all_silent = false;
 		for (auto &f : frames) if (f.bad) stream_corrupted = true; // the framing of a live stream may be lost for good
 		if (!all_silent && !stream_corrupted && snd_to != 0 && rcv_to != 0 && (con_to != 0 || eps[0].http)) K.fail("C14", "no-recovery-after-faults", "fresh-request", "a request added after faults stopped, against honest servers, ended with error 0x%x instead of a response", fresh.att.back().err);
 	} else K.count("probe.fresh_request_ok");
